@@ -154,6 +154,14 @@ def _chain_return(fn, env):
             elif isinstance(s, ast.Expr) and isinstance(s.value,
                                                         ast.Constant):
                 continue
+            elif isinstance(s, ast.Assert):
+                # an assertion that holds under env changes nothing; one
+                # that fails means this member never gets here
+                if not eval_static(s.test, env):
+                    raise ValueError(f'assertion {txt(s.test)[:30]} fails')
+                continue
+            elif isinstance(s, ast.Pass):
+                continue
             else:
                 raise ValueError(f'unexpected statement {txt(s)[:30]}')
         return None
@@ -453,11 +461,31 @@ def r106(ctx) -> None:
             'update(…, {Seen}, FlagOp.ADD)')
     cs = ctx.proj.cls(STATE, 'ConnectionState')
     df = cs.own_method('do_fetch')
+    # set_seen becomes true only because some fetched attribute asks for
+    # it: any(a.set_seen for a in cmd.attributes), or the loop spelling
     ok = False
-    for _, v in local_assigns(df, 'set_seen'):
-        if v is not None and 'attr.set_seen' in txt(v) and \
-                'cmd.attributes' in txt(v) and 'any(' in txt(v):
+    bad_def = []
+    dcfg = cfg_of(df)
+    for st, v in local_assigns(df, 'set_seen'):
+        if v is None:
+            bad_def.append(txt(st))
+            continue
+        tv = txt(v)
+        if const_value(v) == (True, False):
+            continue
+        if 'any(' in tv and '.set_seen' in tv and 'cmd.attributes' in tv:
             ok = True
+            continue
+        if const_value(v) == (True, True):
+            loops = [l for l in enclosing(df.node, st, (ast.For,))
+                     if txt(l.iter) == 'cmd.attributes']
+            if loops and any(runs_only_when(
+                    dcfg, nd, f'{txt(loops[0].target)}.set_seen', True)
+                    for nd in dcfg.nodes_of(st)):
+                ok = True
+                continue
+        bad_def.append(tv)
+    ok = ok and not bad_def
     R.check(ok, df, df.node, 'do_fetch: set_seen = any(attribute.set_seen)',
             'do_fetch does not derive set_seen from the fetched attributes')
 
